@@ -83,6 +83,9 @@ pub(crate) fn needs_escape(name: &str) -> bool {
     name.trim_start_matches('$')
         .trim_start_matches('_')
         .contains('_')
+        // a literal name that holds a brace index (`\_{i}`) reads as that
+        // index when the escape is dropped
+        || name.contains('{')
 }
 
 /// The spelling under which the name of a compiled variable is read back as
